@@ -156,7 +156,7 @@ func analyseMethod(c *core.Ctx, s *c20side, m *types.Func) {
 		}
 		return -1
 	}
-	ps, err := paths.Enumerate(fn, paths.Config{Inline: inline, Decide: decide, MaxDepth: 3})
+	ps, err := paths.Enumerate(fn, paths.Config{Inline: inline, Decide: decide, MaxDepth: 3, SkipPureLoops: true})
 	if err != nil {
 		c.Unknown("C20-STICKY", key, pos, "path enumeration failed: "+err.Error())
 		return
